@@ -704,8 +704,8 @@ def replay(chk, path):
             res, info = tools.layout([t])
             r = res[0]
             print('decl :', rp['decl'])
-            for k in ('c2m', 'gcc', 'mc', 'ms', 'bss'):
-                print('%-5s: %s' % (k, r[k]))
+            for k in ('c2m', 'gcc', 'mc', 'ms', 'bss', 'c2m_sign', 'gcc_sign', 'm_sign'):
+                print('%-8s: %s' % (k, r[k]))
             v = verdict(r)
             print('verdict:', v)
             return 0 if v == 'ok' else 1
